@@ -9,11 +9,11 @@ VERIF = os.path.dirname(os.path.dirname(os.path.abspath(__file__)))
 # pid -> (category, text, note, technique, has_thorough)
 CLAIMED = {
     "C01": ("other",
-            "Static decision of the structural clauses: every recursive cycle of the parser passes a recursion-limit check (stack clause), no loop path can spin without consuming input, entry functions open their root first, pop is guarded. A rule over all CFG paths / call-graph cycles covers nesting combinations no fixture contains.",
+            "Static decision of the structural clauses: every recursive cycle of the parser passes a recursion-limit check (stack clause), no loop path can spin without consuming input, entry functions open their root first, pop is guarded; the lexer machine (shared with C03) decides that the lexer rejects exactly the escapes on which the string decoder, run by the compiler's parse entry points, would panic (including the surrogate range). A rule over all CFG paths / call-graph cycles covers nesting combinations no fixture contains.",
             "Decides recursion depth <= limit (+constant), absence of non-progressing loop paths (including by token kind), root typestate and guarded pop; the thorough tier adds the reviewed inventory of all 36 panic-capable sites reachable from the parse/lex entries (32 rows, each with a discharge class; a site outside the table is reported), which is conservative and therefore not in the quick tier; assumes limit x frame fits the stack for the default 500 and rowan's documented panics; does not decide termination in general.",
             "call-graph SCC cut-set + CFG must-pass-through / dominator rules over rustc MIR", True),
     "C02": ("other",
-            "Token conservation decided on every CFG path: each popped token is moved into a tree sink, error fragments are queued, the pending queue is flushed before the root closes, only two functions write tokens to the builder, Cursor.index has three writers.",
+            "Token conservation decided on every CFG path: each popped token is moved into a tree sink, error fragments are queued, the pending queue is flushed before the root closes, only two functions write tokens to the builder, Cursor.index has three writers, and the lexer inside the parser is built from the caller's input parameter itself (not a stripped or trimmed view).",
             "Given rowan concatenates token texts in insertion order; standalone type/selection trees are not claimed by the property.",
             "affine (move) dataflow + must-pass-through + who-writes rules over rustc MIR", False),
     "C04": ("other",
@@ -21,7 +21,7 @@ CLAIMED = {
             "Decides the mechanism on all paths; which constructs count as nesting is given by the guarded call-graph edges and not compared with a reference.",
             "count-lattice dataflow (PAIR), comparator normalisation, who-writes, access-path provenance over rustc MIR", False),
     "C07": ("other",
-            "Every path from the construct parser's return to the entry's return passes an end-of-input test whose non-Eof edges report an error; the compiler maps every tree error into the list whose emptiness decides Ok.",
+            "Every path from the construct parser's return to the entry's return passes an end-of-input test whose non-Eof edges report an error; the compiler maps every tree error into the list whose emptiness decides Ok; the outer braces of a field set come in pairs (`{` is followed by expect('}') on every flag-consistent path, no `}` is consumed without its `{`).",
             "Leading tokens are covered by the construct parser's own error on an unexpected first token (not re-derived).",
             "must-pass-through over rustc MIR CFG with enumerated EOF-test idioms; provenance of DiagnosticList", False),
     "C30": ("other",
@@ -81,7 +81,7 @@ CLAIMED = {
             "Verdict equivalence with a reference parser is not decided (not decidable by this family); only the named tables and shapes are. One known finding: `schema { query: }` is accepted (root_operation_type_definition, missing NamedType), see known_findings.json.",
             "string-pattern table extraction (HIR) + must-pass-through over MIR CFG + sibling table comparison + token-kind abstract interpretation of the grammar functions against graphql.ungram", False),
     "C28": ("other",
-            "The scalar coercion table (built-in names, JSON predicates consulted per name, bounds) and the structural shape of null/list/input-object/variable-map handling, extracted from the type-checked match arms and if-chains; plus the table of graphql_value_to_json, which turns default values into JSON (defaults are not coerced again): faithful per literal kind, Int / Float literals through the parser of their own text and never a narrowing conversion.",
+            "The scalar coercion table (built-in names, JSON predicates consulted per name, bounds) and the structural shape of null/list/input-object/variable-map handling, extracted from the type-checked match arms and if-chains; plus the table of graphql_value_to_json, which turns default values into JSON (defaults are not coerced again): faithful per literal kind, Int / Float literals through the parser of their own text and never a narrowing conversion; the caller's JSON value is returned unchanged only on paths where the type is a scalar or an enum.",
             "Clause-level: numeric edge values and serde_json_bytes' predicates are not decided.",
             "decision-table extraction over HIR match arms and if-chains", False),
     "C15": ("other",
@@ -105,7 +105,7 @@ CLAIMED = {
             "Response equality with a reference executor, merging of sub-selections and resolver behaviour are not decided. The rules read async fns from typed HIR (names intact) and plain fns from MIR.",
             "decision-table extraction (MIR path enumeration), dominating-edge facts, and access-path / local-identity provenance over typed HIR of the async executor functions", False),
     "C18": ("other",
-            "Typing provenance of executable documents: the definition handed to Field::new is schema.type_field(&self.ty, &ast.name) for the same AST field; sub-selection sets are typed by definition.ty.inner_named_type(), the fragment's type condition, or the parent type (decision table of new_inline_fragment), root selection sets by schema.root_operation; Schema::type_field as a decision table (explicit fields on Object/Interface, __typename on Object/Interface/Union, __schema/__type only on the query root, error cases); the root_fields/all_fields iterators enter a named fragment only on first insertion into fragments_seen, always enter inline fragments, and (only all_fields) descend into field sub-selections; and the per-operation scope of the validated_fragments memo (variables written only in the constructor that creates the empty memo, one context per operation).",
+            "Typing provenance of executable documents: the definition handed to Field::new is schema.type_field(&self.ty, &ast.name) for the same AST field; sub-selection sets are typed by definition.ty.inner_named_type(), the fragment's type condition, or the parent type (decision table of new_inline_fragment), root selection sets by schema.root_operation; Schema::type_field as a decision table (explicit fields on Object/Interface, __typename on Object/Interface/Union, __schema/__type only on the query root, error cases); the root_fields/all_fields iterators enter a named fragment only on first insertion into fragments_seen, always enter inline fragments, and (only all_fields) descend into field sub-selections; and the per-operation scope of the validated_fragments memo (variables written only in the constructor that creates the empty memo, one context per operation); the type an inline fragment's selections are validated against (its type condition, else the parent type passed in); the completeness conditions of the fragment-cycle search shared with C21.",
             "The validity guarantees of the statement (acyclic spreads, defined variables, leaf/composite selections) are validation verdicts and are not decided, except the memo-scope condition that makes `every used variable is defined` hold for fragments shared between operations.",
             "local-identity provenance over typed HIR, decision tables from MIR path enumeration, dominating-edge facts, who-writes on a struct field", False),
     "C11": ("other",
@@ -113,7 +113,7 @@ CLAIMED = {
             "Decides provenance and units, not the numeric values of positions. Later stages (schema/executable) clone the located nodes; that they do is not re-derived.",
             "access-path provenance over rustc MIR (symbolic operands), who-calls on location-less constructors, backward may-derive slice for units and line separators", False),
     "C17": ("other",
-            "Handler registry: each of the 34 operation-validation rules of spec section 5 (as split into diagnostic kinds) has a diagnostic of the matching kind constructed in a function reachable from the executable validation entries and, for construct-specific rules, through the validator of that construct (values, directives, field arguments). The missing handler for 5.6.3 Input Object Field Uniqueness was found by this rule and repaired. Plus the per-operation scope of the validated-fragments memo (the per-operation variable rules 5.8.3/5.8.5 are otherwise applied with another operation's variables).",
+            "Handler registry: each of the 34 operation-validation rules of spec section 5 (as split into diagnostic kinds) has a diagnostic of the matching kind constructed in a function reachable from the executable validation entries and, for construct-specific rules, through the validator of that construct (values, directives, field arguments). The missing handler for 5.6.3 Input Object Field Uniqueness was found by this rule and repaired. Plus the per-operation scope of the validated-fragments memo (the per-operation variable rules 5.8.3/5.8.5 are otherwise applied with another operation's variables); SameResponseShape's wrapper table over the 16 kind pairs of the two field types (same-nullability lists unwrap together, any other list / nullability difference conflicts).",
             "Presence of a handler per rule is a necessary condition only; that each handler's condition equals the spec's, i.e. verdict agreement with graphql-js, is not decided (not decidable by this family).",
             "call-graph reachability from entry points to diagnostic construction sites (aggregates in MIR) against a rule->variant registry; who-writes / provenance for the memo scope", False),
     "C32": ("other",
